@@ -772,6 +772,13 @@ func (w *World) opBurst() {
 	}
 	r := cands[w.t.Choose("ops", "burst.recv", len(cands))]
 	m := []int{2, 3, 7, 8, 9, 15, 16, 17, 31, 32, 33, 63, 64, 65, 127, 128, 129, 255, 256, 257, 511, 512, 513}[w.t.Choose("ops", "burst.m", 23)]
+	if w.t.Chance("ops", "burst.long", 1, 24) {
+		// rarely, a very long one: 16-bit counters, and process-wide ones
+		// that count every call up to 2^20 (a burst that long crosses a
+		// multiple of 2^20 wherever the count stood)
+		m = []int{65535, 65536, 65537, 1<<20 + 1}[w.t.Choose("ops", "burst.longm", 4)]
+		w.r.Probe("burst_very_long")
+	}
 	kind := w.t.Choose("ops", "burst.kind", 3)
 	other := cands[w.t.Choose("ops", "burst.other", len(cands))]
 	first := w.t.Choose("ops", "burst.first", 4) // which encoder looks at it before the burst, if any
@@ -799,13 +806,14 @@ func (w *World) opBurst() {
 			}
 		}
 	})
-	for i := 0; i < m; i++ {
-		switch kind {
-		case 0:
-			model = model.Double()
-		case 1:
-			model = model.Add(qm)
-		default:
+	// the model takes the short cut: 2^m * P, P + m * Q, (-1)^m * P
+	switch kind {
+	case 0:
+		model = model.Mul(new(big.Int).Exp(big.NewInt(2), big.NewInt(int64(m)), ref.N))
+	case 1:
+		model = model.Add(qm.Mul(big.NewInt(int64(m))))
+	default:
+		if m%2 == 1 {
 			model = model.Neg()
 		}
 	}
